@@ -573,6 +573,32 @@ func (e *CEnv) evalCall(n *CCall) (CV, error) {
 			}
 		}
 		return CV{}, cerr("has() on non-map")
+	case "visited": // visited(m, k): key k has been yielded by the range loop over map m that is in progress
+		args, err := evalArgs()
+		if err != nil {
+			return CV{}, err
+		}
+		m, k := args[0], args[1]
+		if m.GoT != nil {
+			if mt, ok := m.GoT.Underlying().(*types.Map); ok {
+				vn, vs := w.RangeVisitedArray(mt)
+				key := k.T
+				if key.Sort == SSlice {
+					if b, ok := e.coerceBytes(k); ok {
+						key = b
+					}
+				}
+				return CV{T: Select(Select(w.heapGet(e.heap(), vn, vs), m.T), key)}, nil
+			}
+		}
+		return CV{}, cerr("visited() on non-map")
+	case "mem": // mem(p): the bytes at address p (for *[N]byte passed through interfaces)
+		args, err := evalArgs()
+		if err != nil {
+			return CV{}, err
+		}
+		bm := w.heapGet(e.heap(), "BM", ArraySort(SRef, SBytes))
+		return CV{T: Select(bm, e.ex.bmKey(args[0].T))}, nil
 	case "typeis": // typeis(x, "pkg.Type"): dynamic type test
 		if len(n.Args) != 2 {
 			return CV{}, cerr("typeis(x, \"T\")")
